@@ -384,6 +384,41 @@ pub fn huge(args: &[String]) -> i32 {
     let bytes = args.iter().any(|a| a == "--bytes");
     let mut out = Out::create(arg_req(args, "--out"));
     let mut rng = run_rng(seed, 0xC18, 4242);
+    // small NON-EMPTY arrays of zero-sized members (an array of them is zero-sized itself): every
+    // array flavour builds a choice over exactly N members
+    {
+        macro_rules! zst_rows {
+            ($n:expr) => {{
+                let mut rows: Vec<(&str, Result<Option<usize>, String>)> = Vec::new();
+                rows.push(("arr_into_owned", guarded(|| {
+                    IntoDistribution::<()>::into_distribution([(); $n]).ok().map(|d| { let () = d.sample(&mut rng); d.num_choices().get() })
+                })));
+                rows.push(("arrref_into_ref", guarded(|| {
+                    let a = [(); $n];
+                    IntoDistribution::<&()>::into_distribution(&a).ok().map(|d| { let _: &() = d.sample(&mut rng); d.num_choices().get() })
+                })));
+                rows.push(("arrref_into_clone", guarded(|| {
+                    let a = [(); $n];
+                    IntoDistribution::<()>::into_distribution(&a).ok().map(|d| { let () = d.sample(&mut rng); d.num_choices().get() })
+                })));
+                rows.push(("arr_to_clone", guarded(|| {
+                    let a = [(); $n];
+                    ToDistribution::<()>::to_distribution(&a).ok().map(|d| { let () = d.sample(&mut rng); d.num_choices().get() })
+                })));
+                for (flavour, r) in rows {
+                    let b = match r {
+                        Ok(Some(n)) if n == $n => json!({"k": "ok", "n": "len"}),
+                        Ok(Some(n)) => json!({"k": "ok", "n": n.to_string()}),
+                        Ok(None) => json!({"k": "empty_slice"}),
+                        Err(m) => json!({"k": "panic", "msg": m}),
+                    };
+                    out.line(&json!({"ev": "huge", "run": format!("zst{}", $n), "flavour": flavour, "len": $n.to_string(), "b": b}));
+                }
+            }};
+        }
+        zst_rows!(1usize);
+        zst_rows!(3usize);
+    }
     for len in [1usize << 32, (1 << 32) + 5, 1 << 33] {
         let mut rows: Vec<(&str, Result<Option<usize>, String>)> = Vec::new();
         rows.push(("vec_into_owned", guarded(|| {
